@@ -751,43 +751,141 @@ def gen_observations(r, sp, mid, hids, nmax=4, methods=C14_METHODS):
     return ops
 
 
+def opflip(r, sp):
+    """Same leaves, same tree shape (hence the same allocation pattern), other operator:
+    the degree / linearity of an objective changes while node addresses can be reused."""
+    import copy
+
+    m = copy.deepcopy(sp)
+    for name in sorted(m["exprs"]):
+        e = m["exprs"][name]
+        if not name.startswith("o"):
+            continue
+        if e[0] == "chain" and e[1] == "+" and len(e[2]) >= 2:
+            e[1] = "*" if r.random() < 0.5 else "-"
+        elif e[0] == "+":
+            e[0] = "*"
+        elif e[0] == "*":
+            e[0] = "+"
+        elif e[0] == "-":
+            e[0] = "*"
+    return m
+
+
+def _tiny_spec(r, kind):
+    """Two variables, one objective, two constraints; `kind` picks the objective's degree."""
+    a, b, c = r.choice(COEFS), r.choice(COEFS), r.choice(TARGETS)
+    x, y = ["var", "x"], ["var", "y"]
+    if kind == "lin":
+        o = ["+", ["*", ["num", a], x], ["*", ["num", b], y]]
+    elif kind == "quad":
+        o = ["+", ["**", ["-", x, ["num", c]], ["num", 2]], ["**", ["-", y, ["num", a]], ["num", 2]]]
+    else:
+        o = ["*", ["-", x, ["num", c]], ["-", y, ["num", a]]]
+    sp = {
+        "name": "t",
+        "vars": [{"kind": "scalar", "name": "x", "lb": -4.0, "ub": 4.0, "domain": "continuous"},
+                 {"kind": "scalar", "name": "y", "lb": -4.0, "ub": 4.0, "domain": "continuous"}],
+        "params": [],
+        "exprs": {"o0": o},
+        "cons": {"c0": {"k": "s", "lhs": ["+", x, y], "sense": "<=", "rhs": ["num", r.choice([1.0, 2.0, 3.0])]},
+                 "c1": {"k": "s", "lhs": ["*", x, y] if kind == "prod" and r.random() < 0.5 else ["-", x, y], "sense": ">=", "rhs": ["num", -2.0]}},
+        "expr_order": ["o0"],
+        "con_order": ["c0", "c1"],
+    }
+    return sp
+
+
+def gen_c14_churn(r, tier="quick"):
+    """Many short-lived models of one kind, dropped and collected, then models of another kind:
+    node addresses get recycled, so anything keyed by id() / address goes stale."""
+    from .world import DEFAULT_KNOBS
+
+    knobs = dict(DEFAULT_KNOBS)
+    small = tier == "quick" or r.random() < 0.6
+    if small:
+        knobs.update(lru_compile=r.choice([4, 16]), lru_gradient=r.choice([4, 16]), lru_degree=r.choice([4, 16]))
+    first, second = r.choice([("lin", "quad"), ("lin", "prod"), ("quad", "lin"), ("prod", "lin")])
+    n = r.randint(12, 30)
+    ops = []
+    for j in range(n):
+        mid = 100 + j
+        ops.append(["new_model", mid, _tiny_spec(r, first)])
+        ops.append([r.choice(["minimize", "maximize"]), mid, "o0"])
+        ops.append(["subject_to", mid, "c0"])
+        if r.random() < 0.5:
+            ops.append(["subject_to", mid, "c1"])
+        ops.append(["solve", mid, {"method": "auto"}] if r.random() < 0.7 else ["read_n", mid])
+        if not small and j == n // 2:
+            ops.append(["flood", 4200, "fc"])
+        ops.append(["drop_model", mid])
+    if not small:
+        ops.append(["flood", 4200, "fd"])
+    for j in range(r.randint(3, 8)):
+        mid = 200 + j
+        ops.append(["new_model", mid, _tiny_spec(r, second)])
+        ops.append(["minimize", mid, "o0"])
+        ops.append(["subject_to", mid, "c0"])
+        ops.append(["solve", mid, {"method": "auto"}])
+        if r.random() < 0.5:
+            ops.append(["drop_model", mid])
+    return {"knobs": knobs, "ops": ops}
+
+
 def gen_c14(r, tier="quick"):
+    if r.random() < 0.15:
+        return gen_c14_churn(r, tier)
     knobs = gen_knobs(r, 0.4)
     M = gen_any_pool(r)
     ops = []
     early = r.random() < 0.6
-    hids0 = []
     setup = _setup_ops(r, M, 0)
+    obsM = gen_observations(r, M, 0, [], 4)  # M's own observation script (handles h0..)
     if early:
         ops.append(["new_model", 0, M])
         ops.extend(setup)
-        if r.random() < 0.7:
-            ops.extend(gen_observations(r, M, 0, hids0, 2))
+        ran_early = r.random() < 0.7
+        if ran_early:
+            ops.extend(obsM)
     # adversarial prefix
     nadv = r.randint(1, 6)
     live = []
     for j in range(nadv):
         mid = 10 + j
-        if r.random() < 0.6:
-            A = mutate_spec(r, M)
+        k = r.random()
+        twin_script = False
+        if k < 0.45:
+            A = mutate_spec(r, M)  # same names and structure, other values / bounds / domains
+            twin_script = r.random() < 0.75
+        elif k < 0.65:
+            A = opflip(r, M)  # same leaves and shape, other operators
+            twin_script = r.random() < 0.75
         else:
             A = gen_any_pool(r)
         ops.append(["new_model", mid, A])
-        ops.extend(_setup_ops(r, A, mid))
-        ops.extend(gen_observations(r, A, mid, [], 3))
+        if twin_script:
+            # the adversary does exactly what M does: same cache keys, other meaning
+            ops.extend(_retarget(o, mid) for o in setup)
+            ops.extend(_retarget(o, mid) for o in obsM)
+        else:
+            ops.extend(_setup_ops(r, A, mid))
+            ops.extend(gen_observations(r, A, mid, [], 3))
         live.append(mid)
-        if r.random() < 0.5:
-            ops.append(["drop_model", live.pop(r.randrange(len(live)))])
         if r.random() < 0.25:
             big = tier == "thorough" and r.random() < 0.3
             ops.append(["flood", r.choice([1100, 4200]) if big else r.choice([5, 20, 70]), f"f{j}"])
+        if r.random() < 0.55:
+            ops.append(["drop_model", live.pop(r.randrange(len(live)))])
     # observe M: the long-lived copy and a fresh copy built after the prefix
     if early:
-        ops.extend(gen_observations(r, M, 0, hids0, 4))
+        hids0 = [o[2] for o in obsM if o[0] == "compile"] if ran_early else []
+        ops.extend(obsM if (r.random() < 0.6 or not ran_early) else gen_observations(r, M, 0, hids0, 4))
     if not early or r.random() < 0.6:
         ops.append(["new_model", 1, M])
         ops.extend(_retarget(o, 1) for o in setup)
-        ops.extend(gen_observations(r, M, 1, [], 4))
+        ops.extend(_retarget(o, 1) for o in obsM)
+        if r.random() < 0.4:
+            ops.extend(gen_observations(r, M, 1, [o[2] for o in obsM if o[0] == "compile"], 3))
     return {"knobs": knobs, "ops": ops}
 
 
